@@ -682,7 +682,7 @@ func genDA(r *c.Rng, k *Case) {
 	}
 	// the authorization named in the request URL need not be the one that owns this challenge
 	if r.Chance(1, 6) {
-		k.AzForeign = true
+		k.AzForeign, k.AzSib = true, nil // that authorization has its own three challenges
 	}
 	// second-order: now and then combine with a key type
 	if r.Chance(1, 6) && w.Key == "p256" {
